@@ -196,8 +196,7 @@ def unit_queue_command(fsm_state, argkind, lost=False):
                                              post['commands'] == z3.Concat(pre['commands0'], z3.Unit(c)),
                                              B(len(fired) == 0))),
                        clause='never written while an earlier command\'s reply is outstanding; FIFO')
-            disc = B(len(fired) == 1 and fired[0][1] == 'err' and
-                     z3.is_true(z3.simplify(fired[0][0].t == r.t))) if len(fired) == 1 else B(False)
+            disc = z3.And(B(fired[0][1] == 'err'), fired[0][0].t == r.t) if len(fired) == 1 else B(False)
             ctx.oblige('post.post_loss_submission_fails_once_nothing_written', p,
                        z3.Implies(lost0, zand(B(len(writes) == 0), disc, K.TOptCmd.is_none(post['command']),
                                               z3.Length(post['commands']) == 0)),
